@@ -266,7 +266,7 @@ func (g *pfGen) schema(valid bool) []*pfProp {
 				}
 			} else {
 				p.ty = g.pick([]string{"string", "string", "integer", "boolean"})
-				if g.chance(70) && len(names) > 0 {
+				if g.chance(85) && len(names) > 0 {
 					p.xh = 's'
 					p.xhStr = names[0]
 					names = names[1:]
@@ -946,6 +946,8 @@ type pfHTTPCase struct {
 	jsonResp   bool
 	cancelled  bool
 	wantsKnown bool
+	sizeClass  string
+	muts       []string
 }
 
 var pfOldVersions = []string{protocolVersion20251125, protocolVersion20250618, protocolVersion20250326, protocolVersion20241105}
@@ -1047,6 +1049,9 @@ func (g *pfGen) httpCase() *pfHTTPCase {
 	if newProto {
 		c.version = protocolVersion20260728
 		method = g.pick(pfMethods)
+		if g.chance(50) {
+			method = "tools/call"
+		}
 	} else {
 		c.version = g.pick(append([]string{""}, pfOldVersions...))
 		method = g.pick(pfMethods)
@@ -1093,7 +1098,9 @@ func (g *pfGen) httpCase() *pfHTTPCase {
 	// perturbations
 	nmut := []int{0, 0, 1, 1, 1, 2, 2, 3}[g.rng.Intn(8)]
 	for i := 0; i < nmut; i++ {
-		switch g.rng.Intn(19) {
+		mk := g.rng.Intn(19)
+		c.muts = append(c.muts, "mut-"+[]string{"host", "listener", "protection-off", "origin", "method", "ctype", "accept", "version", "session", "last-event-id", "size", "body", "meta", "mcp-method", "mcp-name", "param-extra", "json-response", "std-headers-flip", "bad-version"}[mk])
+		switch mk {
 		case 0:
 			c.host = g.pick(pfHosts)
 		case 1:
@@ -1235,10 +1242,15 @@ func (g *pfGen) httpCase() *pfHTTPCase {
 		body = msgs[0]
 	}
 	// size classes relative to the limit
+	c.sizeClass = "size-default"
+	if c.limit != 0 {
+		c.sizeClass = map[int64]string{-1: "size-eq-limit", 1: "size-limit-minus1", -2: "size-limit-plus1", -3: "size-limit1", -4: "size-padded-plus1", -5: "size-padded-eq"}[c.limit]
+	}
 	switch c.limit {
 	case 0:
 		if g.chance(3) {
 			c.limit = -1 // unlimited
+			c.sizeClass = "size-unlimited"
 		}
 	case -1:
 		c.limit = int64(len(body)) // body = limit
@@ -1624,7 +1636,11 @@ func (c *pfHTTPCase) run() (op, obs string, tags []string) {
 		}
 		obs = fmt.Sprintf("S=%d E=%s A=%s R=%d H=%d D=%d", rec.Code, code, allow, cnt.mw.Load()-mw0, cnt.h.Load()-h0, d)
 	}
-	tags = []string{"http-" + c.kind, fmt.Sprintf("http-%s-%d", c.kind, rec.Code)}
+	tags = []string{"http-" + c.kind, fmt.Sprintf("http-%s-%d", c.kind, rec.Code), c.sizeClass, "body-" + strings.Fields(bodyTok)[0][1:], fmt.Sprintf("ph%d", strings.Count(pfParamHdrTok(req.Header), "="))}
+	tags = append(tags, c.muts...)
+	if len(c.muts) == 0 {
+		tags = append(tags, "mut-none")
+	}
 	if strings.HasSuffix(obs, "D=1") {
 		tags = append(tags, "dispatched")
 		if rec.Code >= 300 {
